@@ -95,6 +95,89 @@ def _in_timezone(ctx) -> None:
            f"in_tz must forward to self.in_timezone({p0}); found `{[nun(r.value) for r in rets]}`", m.loc(fn2))
 
 
+def fixed_timezone_tabulate(ctx) -> bool | None:
+    """FIXED.tabulated: FixedTimezone.__init__ and the tzinfo contract built on it, run by the checker's interpreter on offsets of both signs
+    (whole hours, half and quarter hours, less than an hour either side of zero, the extremes +-23:59) with and without a given name:
+    utcoffset() is timedelta(seconds=offset), offset the argument, dst() zero, name / tzname() the given name or else sign, two-digit
+    hours, ':' and two-digit minutes of the offset; and the state pickle / copy rebuild from (__reduce__ / __getinitargs__) gives back
+    the same offset and the same name."""
+    import datetime as _dt
+    from ..rules import minieval
+    from ..rules.minieval import ClassStub, Obj, Stub
+    m = pmod("tz.timezone")
+    meths = m.methods("FixedTimezone", inherited=True)
+    props = {k for k, f in meths.items() if any(core.dotted(d) == "property" for d in f.decorator_list)}
+    funcs = {st.name: st for st in m.top() if isinstance(st, ast.FunctionDef)}
+    glob = {**funcs, "$globals": {**minieval.module_consts(m), "_datetime": Stub(timedelta=_dt.timedelta, tzinfo=_dt.tzinfo, datetime=_dt.datetime), "cast": lambda t_, v: v}}
+    bad, n = [], 0
+    try:
+        class RecDT(_dt.datetime):
+            """a standard-library datetime whose replace() records the tzinfo it is given (the stub zone is not a tzinfo instance)"""
+
+            def replace(self, **k):
+                return ("replaced", _dt.datetime(self.year, self.month, self.day, self.hour, self.minute, self.second, self.microsecond), k)
+        for off in (0, 3600, -3600, 19800, -12600, 1800, -1800, 900, -900, 60, -60, 86340, -86340, 45900, -34200, 561, -561, 3599, -86399):
+            for given in (None, "CET"):
+                made = []
+                ctor = ClassStub(_new=lambda *a, **k: made.append((a, k)) or Stub(_rebuilt=(a, k)), _isa=lambda v: isinstance(v, Obj))
+                o = Obj(_methods=meths, _props=props, _natives={}, _ctor=ctor, _types=(_dt.tzinfo,))
+                minieval.call(meths["__init__"], [o, off] + ([given] if given else []), {}, glob)
+                n += 1
+                sign = "-" if off < 0 else "+"
+                if off % 60 and not given:
+                    want_name = None              # not a whole number of minutes: how the default name truncates is not part of the property
+                else:
+                    want_name = given or f"{sign}{abs(off) // 3600:02d}:{abs(off) % 3600 // 60:02d}"
+                label = f"FixedTimezone({off}{', ' + repr(given) if given else ''})"
+
+                def get(name, *a):
+                    v = minieval._attr(o, name, glob, 0)
+                    return v(*a) if callable(v) and name not in props else v
+                checks = [("utcoffset(None)", lambda: get("utcoffset", None), _dt.timedelta(seconds=off)), ("dst(None)", lambda: get("dst", None), _dt.timedelta(0)),
+                          ("tzname(None)", lambda: get("tzname", None), want_name), ("name", lambda: get("name"), want_name), ("offset", lambda: get("offset"), off)]
+                if "fromutc" in meths:
+                    u = RecDT(2021, 3, 7, 23, 59, 59, 999999)
+                    fr = get("fromutc", u)
+                    wantw = _dt.datetime(2021, 3, 7, 23, 59, 59, 999999) + _dt.timedelta(seconds=off)
+                    if not (isinstance(fr, tuple) and fr[:2] == ("replaced", wantw) and fr[2] == {"tzinfo": o}):
+                        bad.append(f"{label}.fromutc(2021-03-07 23:59:59.999999) = {fr[1] if isinstance(fr, tuple) else fr!r} (expected {wantw} tagged with the zone)")
+                for what, f_, want in checks:
+                    if what.split("(")[0] not in meths or (want is None and what in ("tzname(None)", "name")):
+                        continue
+                    got = f_()
+                    if got != want or type(got) is not type(want):
+                        bad.append(f"{label}.{what} = {got!r} (expected {want!r})")
+                # the pickle / copy state
+                red = None
+                if "__reduce__" in meths or "__reduce_ex__" in meths:
+                    red = minieval.call(meths.get("__reduce__") or meths["__reduce_ex__"], [o] + ([] if "__reduce__" in meths else [2]), {}, glob)
+                    if not (isinstance(red, tuple) and len(red) >= 2 and red[0] is ctor):
+                        raise core.Unsupported("__reduce__ does not return (class, args, ...)")
+                    args = tuple(red[1])
+                elif "__getinitargs__" in meths:
+                    args = tuple(minieval.call(meths["__getinitargs__"], [o], {}, glob))
+                else:
+                    args = None
+                if args is None:
+                    bad.append(f"{label}: neither __getinitargs__ nor __reduce__: a tzinfo is rebuilt by calling its class without arguments")
+                else:
+                    o2 = Obj(_methods=meths, _props=props, _natives={}, _ctor=ctor, _types=(_dt.tzinfo,))
+                    minieval.call(meths["__init__"], [o2, *args], {}, glob)
+                    st2 = red[2] if red is not None and len(red) > 2 and isinstance(red[2], dict) else {}
+                    vars(o2).update(st2)
+                    back = (minieval._attr(o2, "utcoffset", glob, 0)(None), minieval._attr(o2, "tzname", glob, 0)(None))
+                    if back[0] != _dt.timedelta(seconds=off) or (want_name is not None and back[1] != want_name):
+                        bad.append(f"{label} rebuilt from its pickle / copy state {args}: utcoffset {back[0]}, name {back[1]!r} (expected {want_name!r})")
+    except (core.Unsupported, KeyError, TypeError, AttributeError, IndexError, RecursionError, ValueError, minieval.Raised) as e:
+        ctx.unverified("FIXED.tabulated", "FixedTimezone", f"outside the checker's interpreter: {type(e).__name__}: {e}", m.rel)
+        return None
+    ctx.ob("FIXED.tabulated", "FixedTimezone", not bad, f"{n} (offset, name) cases: " + (f"wrong: {bad[:3]}" if bad else
+           "offset, utcoffset, dst, name and the pickle state are those of the constructor's arguments"), m.rel)
+    if not bad:
+        ctx.established(("TZINFO", "STATE"), "FixedTimezone.", "FIXED.tabulated")
+    return not bad
+
+
 def _fixed_contract(ctx) -> None:
     m = pmod("tz.timezone")
     init = m.func("FixedTimezone.__init__")
@@ -643,6 +726,8 @@ def run(ctx) -> None:
     ctx.step(_convert_aware, ctx, "Timezone")
     ctx.step(_convert_aware, ctx, "FixedTimezone")
     ctx.step(_in_timezone, ctx)
+    from . import C02
+    ctx.step(C02._funnel, ctx)        # the native astimezone() re-labels through the subclass's replace(tzinfo=...): the replace() / set() / create() funnel
     dm = pmod("datetime")
     own = ["DateTime.astimezone", "DateTime.now", "DateTime.int_timestamp", "DateTime.instance"]
     sites = recon.sites_in(dm, own) + [s for s in recon.sites_in(dm, ["DateTime.add"])
@@ -656,6 +741,7 @@ def run(ctx) -> None:
             tz = s.bound.get("tzinfo")
             ctx.ob("RECON.rewrap", "DateTime.add/final-rewrap", tz is not None and nun(tz) in ("self.tz", "dt.tzinfo", "self.tzinfo"),
                    f"tzinfo={nun(tz)}; must be the zone the value was converted into", s.loc)
+    ctx.step(fixed_timezone_tabulate, ctx)
     ctx.step(_fixed_contract, ctx)
     ctx.step(_from_timestamp, ctx)
     ctx.step(_add_utc_frame, ctx)
